@@ -8,8 +8,27 @@ pub uninterp spec fn w_is_content_type(v: StrTendril) -> bool;
 pub uninterp spec fn w_extract(v: StrTendril) -> Option<StrTendril>;
 /// the sink's answer to "attach a declarative shadow root" (ASSUMED: a function of its arguments)
 pub uninterp spec fn w_attach_ok(host: Handle, template: Handle, attrs: Seq<Attribute>) -> bool;
-/// `should_attach_declarative_shadow` (ASSUMED, not verified: iterator/closure/str code): a function of the tree builder and the tag
-pub uninterp spec fn w_should_attach(tb: TreeBuilder, tag: Tag) -> bool;
+/// "template start tag's shadowrootmode is not in the None state" (the attribute scan `.iter().any(..)` of
+/// should_attach_declarative_shadow; ASSUMED: an uninterpreted function of the attributes)
+pub uninterp spec fn w_shadow_mode(attrs: Seq<Attribute>) -> bool;
+/// "document's allow declarative shadow roots is true" for the intended parent (the sink's answer; ASSUMED a function of the node)
+pub uninterp spec fn w_allow_shadow(parent: Handle) -> bool;
+/// "the element in which the adjusted insertion location finds itself"
+pub open spec fn place_parent(p: InsertionPoint) -> Handle {
+    match p { InsertionPoint::LastChild(h) => h, InsertionPoint::BeforeSibling(h) => h, InsertionPoint::TableFosterParenting { element, prev_element } => element }
+}
+/// 13.2.6.4.4, a start tag whose tag name is "template": a declarative shadow root is attached iff the shadowrootmode attribute is
+/// not in the None state, the intended parent's document allows declarative shadow roots, and **the adjusted current node is not
+/// the topmost element in the stack of open elements**
+pub open spec fn w_should_attach(tb: &TreeBuilder, tag: Tag) -> bool {
+    w_shadow_mode(tag.attrs@) && w_allow_shadow(place_parent(w_place(tb, None))) && w_acn(tb) != tb.stack()[0]
+}
+/// R37: `tag.attrs.iter().any(|attr| attr.name.local == "shadowrootmode" && (value == "open" || value == "closed"))`
+#[verifier::external_body]
+pub fn attrs_any_shadowrootmode(attrs: &Vec<Attribute>) -> (r: bool) ensures r == w_shadow_mode(attrs@) { unimplemented!() }
+/// `v.first()` (ASSUMED: the slice method)
+#[verifier::external_body]
+pub fn vec_first(v: &Vec<Handle>) -> (r: Option<&Handle>) ensures v@.len() == 0 ==> r is None, v@.len() > 0 ==> r == Some(&v@[0]) { unimplemented!() }
 impl Tag {
     #[verifier::external_body]
     pub fn get_attribute(&self, name: &LocalName) -> (r: Option<StrTendril>) ensures r == w_get_attr(*self, *name) { unimplemented!() }
@@ -20,14 +39,12 @@ pub fn is_content_type(t: &StrTendril) -> (r: bool) ensures r == w_is_content_ty
 pub fn extract_a_character_encoding_from_a_meta_element(t: StrTendril) -> (r: Option<StrTendril>) ensures r == w_extract(t) { unimplemented!() }
 impl Sink {
     #[verifier::external_body]
+    pub fn allow_declarative_shadow_roots(&self, intended_parent: &Handle) -> (r: bool) ensures r == w_allow_shadow(*intended_parent) { unimplemented!() }
+    #[verifier::external_body]
     pub fn attach_declarative_shadow(&mut self, location: &Handle, template: &Handle, attrs: &Vec<Attribute>) -> (r: bool)
         ensures r == w_attach_ok(*location, *template, attrs@),
                 *final(self) == (Sink { dom: Ghost(old(self).dom@.push(DomOp::AttachShadow(*location, *template, attrs@))), ..*old(self) }),
     { unimplemented!() }
-}
-impl TreeBuilder {
-    #[verifier::external_body]
-    pub fn should_attach_declarative_shadow(&self, tag: &Tag) -> (r: bool) ensures r == w_should_attach(*self, *tag) { unimplemented!() }
 }
 /// what a `<meta>` start tag indicates about the encoding: the charset attribute if there is one; otherwise the encoding
 /// extracted from the content attribute if http-equiv is "Content-Type"
